@@ -1020,6 +1020,13 @@ pub fn programs() -> Vec<Program> {
     ]
 }
 
+/// Programs whose result has zero bits (C13 only: the result is still a result).
+pub fn zero_bit_programs() -> Vec<Program> {
+    vec![
+        Program { name: "empty-array-output", parties: 2, source: "const N: usize = PARTY_0::N;\npub fn main(a: u8, b: u8) -> [u8; N] { [a ^ b; N] }", consts: vec![vec![("N", 0)], vec![]], reference: |_, _| 0, out_ty: "empty-array" },
+    ]
+}
+
 /// A program whose compilation takes long enough for the compile window to be observable.
 pub fn heavy_program() -> Program {
     Program {
@@ -1034,7 +1041,7 @@ pub fn heavy_program() -> Program {
 
 pub fn policy_for(prog: &Program, comp_id: u128, party: usize, leader: usize, input: u64, output: bool) -> Policy {
     let participants: Vec<String> = (0..prog.parties).map(|p| format!("http://party{p}.invalid:8000/")).collect();
-    let consts: serde_json::Map<String, Value> = prog.consts[party].iter().map(|(k, v)| (k.to_string(), json!({"NumUnsigned": [v, "U8"]}))).collect();
+    let consts: serde_json::Map<String, Value> = prog.consts[party].iter().map(|(k, v)| (k.to_string(), json!({"NumUnsigned": [v, if prog.out_ty == "empty-array" { "Usize" } else { "U8" }]}))).collect();
     let input_lit = if prog.name == "heavy-compile" {
         json!({"Array": (0..24).map(|i| json!({"NumUnsigned": [(input + i * 7) % 256, "U8"]})).collect::<Vec<_>>()})
     } else {
@@ -1058,6 +1065,10 @@ pub fn expected_literal(prog: &Program, inputs: &[u64]) -> Value {
     let r = (prog.reference)(inputs, &consts);
     if prog.out_ty == "bool" {
         if r != 0 { json!("True") } else { json!("False") }
+    } else if prog.out_ty == "unit" {
+        json!({"Tuple": []})
+    } else if prog.out_ty == "empty-array" {
+        json!({"Array": []})
     } else {
         json!({"NumUnsigned": [r, prog.out_ty]})
     }
